@@ -111,15 +111,19 @@ def _worker(args):
         mod = importlib.import_module(modname)
         part = {p.name: p for p in mod.PARTS}[partname]
         if part.kind == 'enum':
+            nviol = 0
             for idx, spec in enumerate(part.items(tier)):
                 if idx % nshards != shard:
                     continue
                 v = run_case(part, spec, rec, pid)
                 if v is not None:
+                    nviol += 1
                     keys = {x['key'] for x in out['violations']}
                     if v.key not in keys:
                         out['violations'].append(viol_dict(part, v, seed, tier))
-                    if len(out['violations']) >= 5:
+                    # enough evidence: five root causes, or many instances of the same ones, or a non-terminating
+                    # call (every further instance would cost a full watchdog period)
+                    if len(out['violations']) >= 5 or nviol >= 50 or v.key == 'watchdog':
                         break
         elif part.kind == 'hyp':
             vs = _hyp_drive(part, rec, pid, n_examples, seed * 1000 + shard, tier)
@@ -151,15 +155,20 @@ def _hyp_drive(part, rec, pid, n_examples, hseed, tier):
               phases=[Phase.generate, Phase.shrink])
     @given(strat)
     def test(spec):
+        c = None
+        if state['t_first'] is not None and time.time() - state['t_first'] > budget:
+            # shrink budget used up: everything but the smallest failing example found so far is reported as
+            # passing WITHOUT being run (a hanging library call would cost a watchdog period per attempt)
+            c = canonical(spec)
+            if c != state['spec_c']:
+                return
         v = run_case(part, spec, rec, pid)
         if v is None:
             return
         now = time.time()
-        c = canonical(spec)
+        c = c or canonical(spec)
         if state['t_first'] is None:
             state['t_first'] = now
-        elif now - state['t_first'] > budget and c != state['spec_c']:
-            return  # shrink budget used up: pretend everything else passes so that shrinking ends
         if state['v'] is not None and v.key != state['v'].key:
             return  # shrink within one root-cause bucket only
         state['v'], state['spec_c'] = v, c
